@@ -25,7 +25,9 @@ import (
 	"encoding/json"
 	"fmt"
 	"net"
+	"os"
 	"sort"
+	"strconv"
 	"strings"
 	"testing"
 	"time"
@@ -56,12 +58,39 @@ type StepC struct {
 	// login): "" or own | empty | other-online | offline | unknown | own-case
 	Claim  string `json:"claim,omitempty"`
 	ClaimN int    `json:"claim_n,omitempty"`
+	// scale: K "bulk" = N connections of kind Auth made one after the other by the same real
+	// path as "connect" (Hold: they stay open; otherwise each one leaves - or is refused -
+	// before the next arrives: connect-disconnect cycles); K "bulk-leave" = up to N of the
+	// open bulk connections leave; bcast / release / req with N > 1: that many times
+	N    int  `json:"n,omitempty"`
+	Hold bool `json:"hold,omitempty"`
 }
 
 type CaseC struct {
 	Users []wsx.User `json:"users"`
 	Steps []StepC    `json:"steps"`
-	Shape string     `json:"shape"` // planned | random (histogram only)
+	Shape string     `json:"shape"` // planned | random | scale (histogram only)
+	// scale: this many further operators (bulk-0000 ...) are in the profile, for connections
+	// that log in in bulk (one session per operator at a time)
+	Extra int    `json:"extra,omitempty"`
+	Dim   string `json:"dim,omitempty"` // scale: the count that was drawn large (histogram only)
+}
+
+func (c CaseC) allUsers() []wsx.User {
+	us := append([]wsx.User(nil), c.Users...)
+	for i := 0; i < c.Extra; i++ {
+		us = append(us, wsx.User{Name: fmt.Sprintf("bulk-%04d", i), Password: fmt.Sprintf("pw-bulk-%04d", i)})
+	}
+	return us
+}
+
+func newModelC(c CaseC) *modelC { return &modelC{users: c.allUsers(), base: len(c.Users)} }
+
+func reps(s StepC) int {
+	if s.N > 1 {
+		return s.N
+	}
+	return 1
 }
 
 // ------------------------------------------------------------------ abstract model
@@ -82,25 +111,113 @@ type mconn struct {
 	after bool // connected after some connection had left
 	seq   int  // model time of its arrival
 	gone  int  // model time of its departure
+	bulk  bool // made by a bulk step
 }
 
 type mpend struct {
-	id    int
-	kind  string // svc-build | bof
-	owner *mconn
-	open  bool
-	nrel  int
+	id      int
+	kind    string // svc-build | bof
+	owner   *mconn
+	open    bool
+	nrel    int
 	claim   string // effective claim class
 	claimed *mconn // the live session of the claimed operator (nil: nobody by that name is connected)
 }
 
 type modelC struct {
 	users []wsx.User
+	base  int // the first `base` users are the generated operators; bulk operators follow
+	extra int // bulk operators handed out so far
+	cap   int // > 0 (interpreter only): at most this many connections are held open by a bulk step
 	conns []*mconn
 	pend  []*mpend
 	ports int
 	left  bool
 	clock int
+}
+
+// bulk: N further connections, all from fresh addresses.  hold: they stay; otherwise each
+// has left (silent, login) or been refused (wrong-password) before the next one arrives.
+// Logging-in members take the bulk operators of the profile: one each when they stay, the
+// same one for all cycles; when none is left the member stays silent.
+func (m *modelC) bulk(s StepC) (members []*mconn, hold bool) {
+	auth := s.Auth
+	switch auth {
+	case "login", "wrong-password":
+	default:
+		auth = "silent"
+	}
+	hold = s.Hold && auth != "wrong-password"
+	n := s.N
+	if hold && m.cap > 0 && len(m.liveConns())+n > m.cap {
+		n = m.cap - len(m.liveConns())
+	}
+	cycleUser := ""
+	if auth == "login" && !hold {
+		if m.base+m.extra < len(m.users) {
+			cycleUser = m.users[m.base+m.extra].Name
+			m.extra++
+		} else {
+			auth = "silent"
+		}
+	}
+	for i := 0; i < n; i++ {
+		m.clock++
+		m.ports++
+		c := &mconn{id: len(m.conns), key: addrKey{1, m.ports}, src: "fresh", from: -1, auth: auth, live: true, after: m.left, seq: m.clock, bulk: true}
+		switch auth {
+		case "login":
+			if !hold {
+				c.user = cycleUser
+			} else if m.base+m.extra < len(m.users) {
+				c.user = m.users[m.base+m.extra].Name
+				m.extra++
+			} else {
+				c.auth = "silent"
+			}
+		case "wrong-password":
+			c.user = m.users[mod(s.User, len(m.users))].Name
+		}
+		if c.user == "" {
+			c.user = m.users[0].Name // (describe() only: a silent connection names nobody)
+		}
+		m.conns = append(m.conns, c)
+		if !hold {
+			m.clock++
+			c.live = false
+			c.gone = m.clock
+			m.left = true
+		}
+		members = append(members, c)
+	}
+	return
+}
+
+// bulkLeave: up to N of the open bulk connections (the oldest first) leave.
+func (m *modelC) bulkLeave(s StepC) (members []*mconn) {
+	for _, c := range m.conns {
+		if len(members) >= s.N {
+			break
+		}
+		if c.live && c.bulk {
+			m.clock++
+			c.live = false
+			c.gone = m.clock
+			m.left = true
+			members = append(members, c)
+		}
+	}
+	return
+}
+
+func (m *modelC) authLive() int {
+	n := 0
+	for _, x := range m.conns {
+		if x.live && x.auth == "login" {
+			n++
+		}
+	}
+	return n
 }
 
 func (m *modelC) liveConns() (out []*mconn) {
@@ -362,7 +479,7 @@ func genC(t *rapid.T) CaseC {
 	for i := 0; i < nu; i++ {
 		c.Users = append(c.Users, wsx.User{Name: perm[i], Password: fmt.Sprintf("pw-%d-%s", i, perm[i])})
 	}
-	m := &modelC{users: c.Users}
+	m := &modelC{users: c.Users, base: len(c.Users)}
 	add := func(s StepC) { c.Steps = append(c.Steps, s) }
 	idxLive := func(x *mconn) int {
 		for i, y := range m.liveConns() {
@@ -406,6 +523,11 @@ func genC(t *rapid.T) CaseC {
 		if rapid.IntRange(0, 3).Draw(t, label+"-bcast?") == 0 {
 			add(StepC{K: "bcast"})
 		}
+	}
+
+	if scaleShare(t, "scale?", scalePerMille) {
+		genScaleC(t, &c, m, nu)
+		return c
 	}
 
 	if rapid.IntRange(0, 9).Draw(t, "shape") == 0 {
@@ -555,6 +677,303 @@ func genC(t *rapid.T) CaseC {
 	return c
 }
 
+// ------------------------------------------------------------------ generator: scale
+//
+// About one case in 85 (scalePerMille; some ten histories of a quick run) draws ONE of the counts a history has from the threshold-adjacent
+// pool and builds that many connections / events by the same real calls as the small
+// histories, in two parts, with the ordinary small steps before, between and after them.
+
+var scalePerMille = func() int {
+	// (VERIF_C06_SCALE_PER_MILLE: debugging aid, e.g. 1000 = only scale histories)
+	if n, err := strconv.Atoi(os.Getenv("VERIF_C06_SCALE_PER_MILLE")); err == nil && n > 0 {
+		return n
+	}
+	return 12
+}()
+
+// scaleShare is true in about perMille/1000 of the draws.  (rapid's integers are not
+// uniform - 0 and the range ends come up in a tenth of the draws each - so the share is
+// taken from the middle of 0..99, where every value has a share of about 0.6 %.)
+func scaleShare(t *rapid.T, label string, perMille int) bool {
+	if perMille >= 1000 {
+		return true
+	}
+	v := rapid.IntRange(0, 99).Draw(t, label)
+	k := (perMille + 3) / 6
+	if k < 1 {
+		k = 1
+	}
+	return v >= 40 && v < 40+k
+}
+
+var scalePoolAll = []int{63, 64, 65, 127, 128, 129, 255, 256, 257, 511, 512, 513, 999, 1000, 1001, 1023, 1024, 1025, 2047, 2048, 2049, 4095, 4096, 4097, 8191, 8192, 8193}
+
+// scaleDims: the counts, and up to where one case can afford them (quick, thorough).
+// open-*: every connection is a real loopback websocket whose two ends live in the worker
+// process (2 descriptors), so these are also cut by RLIMIT_NOFILE (wsx.MaxConns);
+// *-login: every login is replayed the retained events, which grow with every login and
+// departure (quadratic).
+var scaleDims = []struct {
+	name            string
+	quick, thorough int
+}{
+	{"open-silent", 1025, 2049},
+	{"open-authenticated", 129, 257},
+	{"cycles-silent", 1025, 4097},
+	{"cycles-refused", 1025, 4097},
+	{"open-silent", 1025, 2049},
+	{"cycles-login", 129, 257},
+	{"broadcasts", 4097, 8193},
+	{"targeted-answers", 1025, 4097},
+	{"directed-replies", 257, 1025},
+	{"open-silent", 1025, 2049},
+}
+
+func scalePool(max int) []int {
+	var out []int
+	for _, n := range scalePoolAll {
+		if n <= max {
+			out = append(out, n)
+		}
+	}
+	if len(out) == 0 {
+		out = []int{max}
+	}
+	return out
+}
+
+func scaleBucket(n int) string {
+	switch {
+	case n < 63:
+		return ""
+	case n < 255:
+		return "64-129"
+	case n < 999:
+		return "255-513"
+	case n < 2047:
+		return "999-1025"
+	case n < 8191:
+		return "2047-4097"
+	}
+	return "8191+"
+}
+
+func genScaleC(t *rapid.T, c *CaseC, m *modelC, nu int) {
+	c.Shape = "scale"
+	d := scaleDims[rapid.IntRange(0, len(scaleDims)-1).Draw(t, "scale-dim")]
+	c.Dim = d.name
+	max := d.quick
+	if core.Tier() == "thorough" {
+		max = d.thorough
+	}
+	if strings.HasPrefix(d.name, "open-") {
+		if mc := wsx.MaxConns() - 16; mc < max {
+			max = mc
+		}
+	}
+	n := rapid.SampledFrom(scalePool(max)).Draw(t, "scale-n")
+	// a second, moderate count in one case in three: silent connections held open around the 64 / 128 marks
+	second := 0
+	if !strings.HasPrefix(d.name, "open-") && rapid.IntRange(0, 2).Draw(t, "scale-second?") == 0 {
+		second = rapid.SampledFrom(scalePool(129)).Draw(t, "scale-second-n")
+	}
+	switch d.name {
+	case "open-authenticated":
+		c.Extra = n
+	case "cycles-login":
+		c.Extra = 2
+	}
+	m.users = c.allUsers()
+	m.base = len(c.Users)
+
+	add := func(s StepC) { c.Steps = append(c.Steps, s) }
+	claims := []string{"own", "own", "own", "empty", "empty", "other-online", "offline", "unknown", "own-case"}
+	claim := func(label string, s *StepC) {
+		s.Claim = rapid.SampledFrom(claims).Draw(t, label+"-claim")
+		s.ClaimN = rapid.IntRange(0, 2).Draw(t, label+"-claimn")
+	}
+	connect := func(label, auth string, user int, srcs []string) *mconn {
+		s := StepC{K: "connect", Auth: auth, User: user, Src: rapid.SampledFrom(srcs).Draw(t, label+"-src"), SrcN: rapid.IntRange(0, 5).Draw(t, label+"-srcn"), IP: rapid.IntRange(0, 5).Draw(t, label+"-ip")}
+		add(s)
+		return m.connect(s)
+	}
+	var svcPend *mpend // a payload build whose progress messages can be released any number of times
+	idxPend := func(p *mpend) int {
+		for i, y := range m.openPend() {
+			if y == p {
+				return i
+			}
+		}
+		return 0
+	}
+	ask := func(label string, kind string) *mpend {
+		l := m.liveOps()
+		if len(l) == 0 {
+			return nil
+		}
+		s := StepC{K: "ask", C: rapid.IntRange(0, len(l)-1).Draw(t, label+"-asker"), How: kind}
+		claim(label, &s)
+		add(s)
+		return m.ask(s)
+	}
+	reqKinds := []string{"ladd-dup-smb", "ladd-dup-smb", "ladd-dup-ext", "ladd-proxy", "ledit-proxy"}
+	req := func(label string, n int) {
+		l := m.liveOps()
+		if len(l) == 0 {
+			return
+		}
+		s := StepC{K: "req", C: rapid.IntRange(0, len(l)-1).Draw(t, label+"-reqc"), How: rapid.SampledFrom(reqKinds).Draw(t, label+"-reqk"), P: rapid.IntRange(0, 4).Draw(t, label+"-reqp"), N: n}
+		claim(label+"-req", &s)
+		add(s)
+	}
+	release := func(label string, n int) {
+		var s StepC
+		if svcPend != nil && svcPend.open && (n > 1 || rapid.Bool().Draw(t, label+"-progress?")) {
+			s = StepC{K: "release", P: idxPend(svcPend), How: "message", N: n}
+		} else if l := m.openPend(); len(l) > 0 {
+			s = StepC{K: "release", P: rapid.IntRange(0, len(l)-1).Draw(t, label+"-p"), How: rapid.SampledFrom([]string{"payload", "message", "ran-ok", "could-not-run"}).Draw(t, label+"-form")}
+		} else {
+			return
+		}
+		add(s)
+		for i := 0; i < reps(s); i++ {
+			m.release(s)
+		}
+	}
+	// one ordinary step of the small histories
+	small := func(label string, kinds []string) {
+		switch rapid.SampledFrom(kinds).Draw(t, label+"-k") {
+		case "bcast":
+			add(StepC{K: "bcast"})
+		case "login":
+			connect(label, "login", rapid.IntRange(0, nu-1).Draw(t, label+"-user"), []string{"fresh", "fresh", "reuse", "other-ip"})
+		case "refused":
+			connect(label, "wrong-password", rapid.IntRange(0, nu-1).Draw(t, label+"-user"), []string{"fresh", "reuse", "other-ip"})
+		case "silent":
+			connect(label, "silent", rapid.IntRange(0, nu-1).Draw(t, label+"-user"), []string{"fresh", "reuse", "other-ip"})
+		case "leave-op":
+			if l := m.liveOps(); len(l) > 0 {
+				o := l[rapid.IntRange(0, len(l)-1).Draw(t, label+"-op")]
+				for i, y := range m.liveConns() {
+					if y == o {
+						s := StepC{K: "leave", C: i, How: rapid.SampledFrom(leaveHows).Draw(t, label+"-how")}
+						add(s)
+						m.leave(s)
+					}
+				}
+			}
+		case "leave-any":
+			if l := m.liveConns(); len(l) > 0 {
+				s := StepC{K: "leave", C: rapid.IntRange(0, len(l)-1).Draw(t, label+"-c"), How: rapid.SampledFrom(leaveHows).Draw(t, label+"-how")}
+				add(s)
+				m.leave(s)
+			}
+		case "ask":
+			ask(label, rapid.SampledFrom([]string{"svc-build", "bof"}).Draw(t, label+"-kind"))
+		case "release":
+			release(label, 1)
+		case "req":
+			req(label, 1)
+		}
+	}
+	ordinary := []string{"bcast", "bcast", "bcast", "login", "login", "refused", "silent", "leave-op", "leave-any", "ask", "release", "release", "req"}
+	// the steps that make the teamserver write to every operator: the ones a count-dependent
+	// delivery path would show at
+	fanout := []string{"bcast", "bcast", "bcast", "login", "leave-op", "release", "req"}
+
+	// ---- before the bulk: the small history's setting
+	connect("op0", "login", 0, []string{"fresh", "fresh", "other-ip"})
+	if strings.HasPrefix(d.name, "open-") && rapid.Bool().Draw(t, "early-bystander?") || !strings.HasPrefix(d.name, "open-") && second == 0 {
+		connect("by", "silent", nu-1, []string{"fresh", "other-ip"})
+	}
+	if rapid.Bool().Draw(t, "op1?") {
+		connect("op1", "login", 1, []string{"fresh", "other-ip"})
+	}
+	if d.name == "targeted-answers" || rapid.IntRange(0, 2).Draw(t, "svc-ask?") > 0 {
+		svcPend = ask("svc", "svc-build")
+	}
+	if rapid.Bool().Draw(t, "bof-ask?") {
+		ask("bof", "bof")
+	}
+	for i, k := 0, rapid.IntRange(0, 2).Draw(t, "nbefore"); i < k; i++ {
+		small("before", ordinary)
+	}
+	if second > 0 {
+		s := StepC{K: "bulk", Auth: "silent", N: second, Hold: true}
+		add(s)
+		m.bulk(s)
+		small("second", fanout)
+	}
+
+	// ---- the bulk, in two parts (the first one half of it, all but one, or all but two)
+	n1 := n / 2
+	switch rapid.IntRange(0, 3).Draw(t, "split") {
+	case 0:
+		n1 = n - 1
+	case 1:
+		n1 = n - 2
+	}
+	part := func(k int) {
+		if k <= 0 {
+			return
+		}
+		var s StepC
+		switch d.name {
+		case "open-silent":
+			s = StepC{K: "bulk", Auth: "silent", N: k, Hold: true}
+		case "open-authenticated":
+			s = StepC{K: "bulk", Auth: "login", N: k, Hold: true}
+		case "cycles-silent":
+			s = StepC{K: "bulk", Auth: "silent", N: k}
+		case "cycles-refused":
+			s = StepC{K: "bulk", Auth: "wrong-password", N: k, User: rapid.IntRange(0, nu-1).Draw(t, "refused-user")}
+		case "cycles-login":
+			s = StepC{K: "bulk", Auth: "login", N: k}
+		case "broadcasts":
+			add(StepC{K: "bcast", N: k})
+			return
+		case "targeted-answers":
+			release("bulk", k)
+			return
+		case "directed-replies":
+			req("bulk", k)
+			return
+		}
+		add(s)
+		m.bulk(s)
+	}
+	part(n1)
+	for i, k := 0, rapid.IntRange(1, 3).Draw(t, "nmid"); i < k; i++ {
+		small("mid", ordinary)
+	}
+	part(n - n1)
+
+	// ---- after it: first a step that is fanned out to the operators, then more of the ordinary ones
+	small("after", fanout)
+	for i, k := 0, rapid.IntRange(1, 3).Draw(t, "nafter"); i < k; i++ {
+		small("after", ordinary)
+	}
+	if (strings.HasPrefix(d.name, "open-") || second > 0) && rapid.IntRange(0, 2).Draw(t, "bulk-leave?") == 0 {
+		// many leave at once (all, or all but the threshold-adjacent number that stays), and the history goes on
+		open := 0
+		for _, x := range m.conns {
+			if x.live && x.bulk {
+				open++
+			}
+		}
+		k := open
+		if stay := rapid.SampledFrom([]int{0, 0, 63, 64, 65, 127, 128, 129}).Draw(t, "stay"); stay < open {
+			k = open - stay
+		}
+		s := StepC{K: "bulk-leave", N: k}
+		add(s)
+		m.bulkLeave(s)
+		for i, k := 0, rapid.IntRange(1, 2).Draw(t, "nlate"); i < k; i++ {
+			small("late", ordinary)
+		}
+	}
+}
+
 // ------------------------------------------------------------------ interpreter
 
 const (
@@ -619,20 +1038,22 @@ type addressee struct {
 }
 
 type worldC struct {
-	fx     *wsx.Fixture
-	c      CaseC
-	m      *modelC
-	conns  map[int]*rconn
-	pend   map[int]*rpend
-	owner  map[string]addressee // directed-reply token -> who may receive it
-	nreq   int
-	svc    *wsx.Client
-	bof    *agent.Agent
-	tok    int
-	nbar   int
-	alive  int // connection handlers that should be running (service included)
-	dirty  bool
-	ipOK   bool
+	fx    *wsx.Fixture
+	c     CaseC
+	m     *modelC
+	conns map[int]*rconn
+	pend  map[int]*rpend
+	owner map[string]addressee // directed-reply token -> who may receive it
+	nreq  int
+	svc   *wsx.Client
+	bof   *agent.Agent
+	tok   int
+	nbar  int
+	alive int // connection handlers that should be running (service included)
+	dirty bool
+	ipOK  bool
+	void  bool // the rest of the history is not run (see tableCheck)
+	nopen int  // connections that have a client record (made, and neither refused nor gone yet)
 }
 
 func (w *worldC) svcSend(v any) error {
@@ -803,11 +1224,24 @@ func (w *worldC) localAddr(mc *mconn) *net.TCPAddr {
 }
 
 func (w *worldC) connect(s StepC) *core.Violation {
-	mc := w.m.connect(s)
+	return w.open(w.m.connect(s), 0)
+}
+
+// open makes the connection mc.  queue > 0: it is one of a bulk - its client has a frame
+// queue of that size (wsx.DialFromQ) and the wait for the refused connection's handler to
+// be gone is left to the end of the bulk.
+func (w *worldC) open(mc *mconn, queue int) *core.Violation {
 	var cl *wsx.Client
 	var err error
 	for try := 0; ; try++ {
-		cl, err = w.fx.DialFrom("/havoc/", w.localAddr(mc))
+		if queue > 0 {
+			// (no explicit bind: a bound port is taken machine-wide, and sixteen shards with two
+			// thousand connections each would use up the ephemeral range; bulk members always
+			// come from a kernel-chosen 127.0.0.1 port anyway)
+			cl, err = w.fx.DialFromQ("/havoc/", nil, queue)
+		} else {
+			cl, err = w.fx.DialFrom("/havoc/", w.localAddr(mc))
+		}
 		if err == nil {
 			break
 		}
@@ -843,11 +1277,18 @@ func (w *worldC) connect(s StepC) *core.Violation {
 		time.Sleep(100 * time.Microsecond)
 	}
 	rc.w0 = cl.Peer.Written()
+	w.nopen++
+	if w.c.Shape == "scale" {
+		// before this connection says anything: does the table still have one record per connection?
+		if w.tableCheck(); w.void {
+			return nil
+		}
+	}
 	user := mc.user
 	switch mc.auth {
 	case "login":
 		pw := ""
-		for _, u := range w.c.Users {
+		for _, u := range w.m.users {
 			if u.Name == user {
 				pw = u.Password
 			}
@@ -861,7 +1302,7 @@ func (w *worldC) connect(s StepC) *core.Violation {
 		}
 	case "wrong-password":
 		pw := ""
-		for _, u := range w.c.Users {
+		for _, u := range w.m.users {
 			if u.Name == user {
 				pw = u.Password + "x"
 			}
@@ -891,16 +1332,89 @@ func (w *worldC) connect(s StepC) *core.Violation {
 			w.dirty = true
 			return core.V("refused|record-kept", "%s: its client record still exists %v after the refusal", w.describe(rc), wsx.Watchdog)
 		}
+		w.nopen--
 		cl.Abort()
 		w.alive--
-		if !w.fx.WaitHandlers(w.alive, wsx.Watchdog) {
+		if queue == 0 && !w.fx.WaitHandlers(w.alive, wsx.Watchdog) {
 			w.dirty = true
 		}
 	}
 	return nil
 }
 
-func (w *worldC) leaveConn(rc *rconn, how string) *core.Violation {
+// bulk: N connections, each made (and, in cycles, ended) by the same calls as a single
+// one; the goroutine-dump wait for departed handlers is made once, at the end.
+func (w *worldC) bulk(s StepC) *core.Violation {
+	members, hold := w.m.bulk(s)
+	if len(members) < s.N {
+		wsx.Obs("scale-cut-by-descriptor-limit")
+	}
+	if len(members) == 0 {
+		return nil
+	}
+	wsx.Obs(fmt.Sprintf("bulk:%s+hold=%v:%s", members[0].auth, hold, scaleBucket(len(members))))
+	queue := 64
+	if members[0].auth == "login" {
+		queue = 8192 // its replay, and the arrivals and departures of the others
+	}
+	for _, mc := range members {
+		mc.live = true
+		if v := w.open(mc, queue); v != nil || w.void {
+			return v
+		}
+		if mc.auth == "wrong-password" {
+			mc.live = false
+			continue
+		}
+		if !hold {
+			if v := w.leaveConn(w.conns[mc.id], "abort", true); v != nil {
+				return v
+			}
+			mc.live = false
+		}
+	}
+	if !hold && !w.fx.WaitHandlers(w.alive, wsx.Watchdog) {
+		w.dirty = true
+		wsx.Obs("not-quiescent-after-bulk")
+	}
+	return w.tableCheck()
+}
+
+func (w *worldC) bulkLeave(s StepC) *core.Violation {
+	members := w.m.bulkLeave(s)
+	for _, mc := range members {
+		if v := w.leaveConn(w.conns[mc.id], "abort", true); v != nil {
+			return v
+		}
+	}
+	if len(members) > 0 && !w.fx.WaitHandlers(w.alive, wsx.Watchdog) {
+		w.dirty = true
+		wsx.Obs("not-quiescent-after-bulk")
+	}
+	return w.tableCheck()
+}
+
+// tableCheck: the client table has one record per open connection.  The teamserver names a
+// record by 6 random hex digits; until 4755c52 it stored it without looking whether the name was
+// taken: among a thousand open connections two shared a name about once in thirty histories, and
+// the later one's record replaced the earlier one's (whatever was then sent "to" the earlier
+// connection went to the later one).  That cannot be produced by any input, only met by chance,
+// which is why it is checked on the table itself, in scale histories before the connection that
+// met it has said anything: fewer records than open connections (after the handlers had time to
+// store them) is a violation.
+func (w *worldC) tableCheck() *core.Violation {
+	n := w.fx.ClientCount()
+	for dl := time.Now().Add(3 * time.Second); n < w.nopen && time.Now().Before(dl); n = w.fx.ClientCount() {
+		time.Sleep(5 * time.Millisecond)
+	}
+	if n < w.nopen {
+		w.void, w.dirty = true, true
+		return core.V("table|fewer-client-records-than-open-connections", "%d connections are open, the client table holds %d records: a new connection took over the record of another one (its id was already in use)", w.nopen, n)
+	}
+	return nil
+}
+
+func (w *worldC) leaveConn(rc *rconn, how string, inBulk ...bool) *core.Violation {
 	switch rc.m.auth {
 	case "login":
 		w.nbar++
@@ -933,10 +1447,11 @@ func (w *worldC) leaveConn(rc *rconn, how string) *core.Violation {
 		w.dirty = true
 		return core.V("departure|record-kept|"+how, "%s: its client record still exists %v after it left (%s)", w.describe(rc), wsx.Watchdog, how)
 	}
+	w.nopen--
 	rc.cl.Abort()
 	rc.cl.Join()
 	w.alive--
-	if !w.fx.WaitHandlers(w.alive, wsx.Watchdog) {
+	if len(inBulk) == 0 && !w.fx.WaitHandlers(w.alive, wsx.Watchdog) {
 		w.dirty = true
 		wsx.Obs("not-quiescent-after-departure")
 	}
@@ -1197,12 +1712,28 @@ func runC(raw json.RawMessage) *core.Violation {
 	if len(c.Users) == 0 {
 		return nil
 	}
-	fx, err := wsx.Acquire(c.Users, "service-password")
+	fx, err := wsx.Acquire(c.allUsers(), "service-password")
 	if err != nil {
 		return core.V("harness|fixture", "%v", err)
 	}
-	w := &worldC{fx: fx, c: c, m: &modelC{users: c.Users}, conns: map[int]*rconn{}, pend: map[int]*rpend{}, owner: map[string]addressee{}}
-	defer func() { fx.Release(w.dirty) }()
+	w := &worldC{fx: fx, c: c, m: newModelC(c), conns: map[int]*rconn{}, pend: map[int]*rpend{}, owner: map[string]addressee{}}
+	w.m.cap = wsx.MaxConns()
+	if c.Shape == "scale" {
+		// (the evidence keeps the 60 most frequent labels only: the scale classes are also counted as observations)
+		for _, l := range classifyC(c).Labels {
+			if strings.HasPrefix(l, "scale") || strings.HasPrefix(l, "at-scale:") || strings.HasPrefix(l, "bulk") || l == "shape:scale" {
+				wsx.Obs("class:" + l)
+			}
+		}
+	}
+	t0 := time.Now()
+	defer func() {
+		t1 := time.Now()
+		fx.Release(w.dirty)
+		if os.Getenv("VERIF_WSX_DEBUG") != "" && c.Shape == "scale" {
+			fmt.Fprintf(os.Stderr, "TIMING scale %s steps=%d conns=%d run=%v release=%v\n", c.Dim, len(c.Steps), len(w.conns), t1.Sub(t0), time.Since(t1))
+		}
+	}()
 	v := w.run()
 	if v != nil && !strings.HasPrefix(v.Sig, "harness|") {
 		// a verdict was reached in the middle of a history.  If it is a delivery to the wrong
@@ -1285,14 +1816,27 @@ func (w *worldC) run() *core.Violation {
 		case "ask":
 			v = w.ask(s)
 		case "release":
-			v = w.release(s)
+			for i := 0; i < reps(s) && v == nil; i++ {
+				v = w.release(s)
+			}
 		case "bcast":
-			v = w.bcast()
+			for i := 0; i < reps(s) && v == nil; i++ {
+				v = w.bcast()
+			}
 		case "req":
-			v = w.req(s)
+			for i := 0; i < reps(s) && v == nil; i++ {
+				v = w.req(s)
+			}
+		case "bulk":
+			v = w.bulk(s)
+		case "bulk-leave":
+			v = w.bulkLeave(s)
 		}
 		if v != nil {
 			return v
+		}
+		if w.void {
+			return nil
 		}
 	}
 
@@ -1308,6 +1852,13 @@ func (w *worldC) run() *core.Violation {
 			continue
 		}
 		rc.m.live = false
+		if rc.m.bulk {
+			// (the handlers of a bulk are waited for together, below)
+			if v := w.leaveConn(rc, "abort", true); v != nil {
+				return v
+			}
+			continue
+		}
 		if v := w.leaveConn(rc, "abort"); v != nil {
 			return v
 		}
@@ -1328,96 +1879,175 @@ func classifyC(c CaseC) core.Class {
 	if len(c.Users) == 0 {
 		return cl
 	}
-	m := &modelC{users: c.Users}
+	m := newModelC(c)
 	lab := map[string]bool{"shape:" + c.Shape: true}
 	fp := map[string]bool{}
+	// scale: the largest number of simultaneously open connections by kind, the number of
+	// connect-disconnect cycles by kind, of broadcasts, targeted answers and directed replies
+	count := map[string]int{}
+	peak := func() {
+		u, a := m.unauthLive(), m.authLive()
+		for k, v := range map[string]int{"open-silent": u, "open-authenticated": a, "client-table": u + a} {
+			if v > count[k] {
+				count[k] = v
+			}
+		}
+	}
+	// atScale: an ordinary step made while the client table holds a threshold-adjacent number of connections
+	atScale := func(what string) {
+		if b := scaleBucket(m.unauthLive() + m.authLive()); b != "" {
+			lab["at-scale:"+what+"|table:"+b] = true
+			fp["at-scale:"+what+"|"+b] = true
+			if m.unauthLive() > 0 {
+				cl.NonTrivial = true
+			}
+		}
+	}
 	for _, s := range c.Steps {
 		switch s.K {
-		case "connect":
-			mc := m.connect(s)
-			lab["src:"+mc.src] = true
-			lab["conn:"+mc.auth] = true
-			if mc.after {
-				lab["newcomer:"+mc.src+"+"+mc.auth] = true
+		case "bulk":
+			members, hold := m.bulk(s)
+			if len(members) > 0 {
+				a := members[0].auth
+				if hold {
+					lab["bulk:"+a+"+stay"] = true
+				} else {
+					count["cycles-"+map[string]string{"silent": "silent", "login": "login", "wrong-password": "refused"}[a]] += len(members)
+				}
 			}
-			if mc.src == "reuse" {
-				t := m.conns[mc.from]
-				lab["reuse-address-of:"+t.auth+"->"+mc.auth] = true
+			peak()
+		case "bulk-leave":
+			if ms := m.bulkLeave(s); len(ms) > 0 {
+				lab["bulk-leave"] = true
+				if b := scaleBucket(m.unauthLive() + m.authLive()); b != "" {
+					lab["bulk-leave|table-after:"+b] = true
+				}
 			}
-		case "leave":
-			if mc := m.leave(s); mc != nil {
-				lab["leave:"+mc.auth+"+"+s.How] = true
-			}
-		case "ask":
-			if p := m.ask(s); p != nil {
-				lab["ask:"+p.kind] = true
-				lab["claim:"+p.claim] = true
-				lab["ask:"+p.kind+"+claim:"+p.claim] = true
-				if p.claim != "own" {
-					cl.NonTrivial = true
-					if m.unauthLive() > 0 {
-						lab["claim:"+p.claim+"+while-unauthenticated-connected"] = true
+		}
+		for rep := 0; rep < reps(s); rep++ {
+			switch s.K {
+			case "connect":
+				if rep > 0 {
+					break
+				}
+				mc := m.connect(s)
+				peak()
+				if mc.auth == "login" {
+					atScale("operator-arrives")
+				} else {
+					atScale(mc.auth + "-arrives")
+				}
+				lab["src:"+mc.src] = true
+				lab["conn:"+mc.auth] = true
+				if mc.after {
+					lab["newcomer:"+mc.src+"+"+mc.auth] = true
+				}
+				if mc.src == "reuse" {
+					t := m.conns[mc.from]
+					lab["reuse-address-of:"+t.auth+"->"+mc.auth] = true
+				}
+			case "leave":
+				if rep > 0 {
+					break
+				}
+				if mc := m.leave(s); mc != nil {
+					lab["leave:"+mc.auth+"+"+s.How] = true
+					if mc.auth == "login" {
+						atScale("operator-leaves")
 					}
 				}
+			case "ask":
+				if rep > 0 {
+					break
+				}
+				if p := m.ask(s); p != nil {
+					lab["ask:"+p.kind] = true
+					lab["claim:"+p.claim] = true
+					lab["ask:"+p.kind+"+claim:"+p.claim] = true
+					if p.claim != "own" {
+						cl.NonTrivial = true
+						if m.unauthLive() > 0 {
+							lab["claim:"+p.claim+"+while-unauthenticated-connected"] = true
+						}
+					}
+				}
+			case "req":
+				if a, kind := m.req(s); a != nil {
+					count["directed-replies"]++
+					atScale("directed-reply")
+					class, _, _ := m.claimOf(a, s)
+					lab["req:"+kind] = true
+					lab["claim:"+class] = true
+					lab["req:"+kind+"+claim:"+class] = true
+					f := "req:own"
+					if class == "empty" {
+						f = "req:empty"
+					} else if class != "own" {
+						f = "req:other-name"
+					}
+					if m.unauthLive() > 0 {
+						lab["directed-reply-while-unauthenticated-connected"] = true
+						lab["claim:"+class+"+while-unauthenticated-connected"] = true
+						f += "+unauth"
+						cl.NonTrivial = true
+					}
+					if class != "own" {
+						cl.NonTrivial = true
+					}
+					fp[f] = true
+				}
+			case "release":
+				if p, form := m.release(s); p != nil {
+					count["targeted-answers"]++
+					atScale("targeted-answer")
+					point, holder := m.releasePoint(p)
+					k := "deferred:" + p.kind + "/" + form + "@" + point
+					lab[k] = true
+					f := "@" + point
+					fp["kind:"+p.kind] = true
+					if p.claim == "empty" {
+						fp["deferred-claim:empty"] = true
+					} else if p.claim != "own" {
+						fp["deferred-claim:other-name"] = true
+					}
+					if p.claim != "own" {
+						lab["deferred@"+point+"+claim:"+p.claim] = true
+					}
+					unauth := m.unauthLive()
+					if unauth > 0 {
+						lab["deferred-while-unauthenticated-connected"] = true
+						fp["deferred+unauth"] = true
+					}
+					if holder != nil {
+						lab["deferred@owner-address-now-held-by:"+holder.auth] = true
+						fp["held:"+holder.auth] = true
+					}
+					if p.nrel > 1 {
+						lab["deferred:several-answers-to-one-request"] = true
+					}
+					if point != "owner-there" || unauth > 0 {
+						cl.NonTrivial = true
+					}
+					fp[f] = true
+				}
+			case "bcast":
+				lab["live-broadcast"] = true
+				count["broadcasts"]++
+				atScale("broadcast")
 			}
-		case "req":
-			if a, kind := m.req(s); a != nil {
-				class, _, _ := m.claimOf(a, s)
-				lab["req:"+kind] = true
-				lab["claim:"+class] = true
-				lab["req:"+kind+"+claim:"+class] = true
-				f := "req:own"
-				if class == "empty" {
-					f = "req:empty"
-				} else if class != "own" {
-					f = "req:other-name"
-				}
-				if m.unauthLive() > 0 {
-					lab["directed-reply-while-unauthenticated-connected"] = true
-					lab["claim:"+class+"+while-unauthenticated-connected"] = true
-					f += "+unauth"
-					cl.NonTrivial = true
-				}
-				if class != "own" {
-					cl.NonTrivial = true
-				}
-				fp[f] = true
-			}
-		case "release":
-			if p, form := m.release(s); p != nil {
-				point, holder := m.releasePoint(p)
-				k := "deferred:" + p.kind + "/" + form + "@" + point
-				lab[k] = true
-				f := "@" + point
-				fp["kind:"+p.kind] = true
-				if p.claim == "empty" {
-					fp["deferred-claim:empty"] = true
-				} else if p.claim != "own" {
-					fp["deferred-claim:other-name"] = true
-				}
-				if p.claim != "own" {
-					lab["deferred@"+point+"+claim:"+p.claim] = true
-				}
-				unauth := m.unauthLive()
-				if unauth > 0 {
-					lab["deferred-while-unauthenticated-connected"] = true
-					fp["deferred+unauth"] = true
-				}
-				if holder != nil {
-					lab["deferred@owner-address-now-held-by:"+holder.auth] = true
-					fp["held:"+holder.auth] = true
-				}
-				if p.nrel > 1 {
-					lab["deferred:several-answers-to-one-request"] = true
-				}
-				if point != "owner-there" || unauth > 0 {
-					cl.NonTrivial = true
-				}
-				fp[f] = true
-			}
-		case "bcast":
-			lab["live-broadcast"] = true
 		}
+	}
+	for k, v := range count {
+		if b := scaleBucket(v); b != "" {
+			lab["scale:"+k+":"+b] = true
+			fp["scale:"+k+":"+b] = true
+			if k != "client-table" && k != "open-authenticated" {
+				cl.NonTrivial = true // (open-authenticated alone: nobody is unauthenticated; see atScale)
+			}
+		}
+	}
+	if c.Dim != "" {
+		lab["scale-dim:"+c.Dim] = true
 	}
 	for k := range lab {
 		cl.Labels = append(cl.Labels, k)
@@ -1435,13 +2065,15 @@ func classifyC(c CaseC) core.Class {
 func TestC06c(t *testing.T) {
 	core.Run(t, core.Spec[CaseC]{
 		Property: "C06", Sub: "c",
-		Rule: "real Teamserver.Start() served on a harness listener, 2-3 operators, a third-party service registered over the real service websocket with one agent type, one Demon session. A history of connections to /havoc/: every connection binds its local address explicitly (net.Dialer.LocalAddr; linger 0 so that a departed address is free at once): a fresh 127.0.0.1 port, the exact ip:port of an earlier departed connection (SO_REUSEADDR), or another loopback ip 127.0.0.2-7 with the port of an earlier connection; it stays silent, presents a wrong password, or logs in as an operator; connections leave (reset / close frame / half-close). Authenticated operators start work that is answered later by client id: a payload build relayed to the service (the service's AgentBuild replies - progress message / payload - are sent by the ClientID it was given) and a BOF task with python-module callback (the agent's RAN_OK / COULD_NOT_RUN callback goes through PythonModuleCallback(ClientID)); each answer is released at a generated later point: while the asker is still connected, after it left, after it left and other connections came (planned histories aim at these points; 1 in 10 histories is an unplanned step sequence), interleaved with live console broadcasts. Claimed sender: every such request, and 0-2 requests per phase that HEAD answers at once with a reply directed to ONE client (Listener Add that must fail: existing name as Smb / External listener, Http with the proxy enabled and one of the five proxy fields missing; the same Listener Edit), carries a generated Head.User claim (never checked after login): the sender's own name, the empty string, the name of another connected operator, of a configured operator who is not connected, an unknown name, the own name in another letter case. Oracle: a connection that has not sent a message has received 0 bytes at every release, broadcast and at its departure; a refused one exactly one InitConnection/Error; an authenticated one receives a targeted answer iff it is the session that asked for it and is still connected (exactly once; a later session of the same operator may or may not), and every live broadcast issued while it was authenticated; whatever an authenticated operator sends and claims, an unauthenticated connection receives nothing; a directed reply must reach the sender when it named itself, may reach the sender or the AUTHENTICATED operator whose name was claimed otherwise (not judged by C06, counted: observed directed-reply-reached-...), and no third session; frame lists are complete (one-shot chat echo read before judging; service-side barrier after every service reply). Non-trivial: an answer is released after its asker left, or while an unauthenticated connection exists, or a request claims another sender than its own, or a directed reply is produced while an unauthenticated connection exists; distinct = (set of release points, set of kinds, unauthenticated present at a release, who holds an asker's address at a release, claim class (own / empty / other name) of deferred requests and of directed-reply requests, the latter with/without an unauthenticated connection present)",
-		Gen:   genC, Check: checkC, Classify: classifyC,
+		Rule: "real Teamserver.Start() served on a harness listener, 2-3 operators, a third-party service registered over the real service websocket with one agent type, one Demon session. A history of connections to /havoc/: every connection binds its local address explicitly (net.Dialer.LocalAddr; linger 0 so that a departed address is free at once): a fresh 127.0.0.1 port, the exact ip:port of an earlier departed connection (SO_REUSEADDR), or another loopback ip 127.0.0.2-7 with the port of an earlier connection; it stays silent, presents a wrong password, or logs in as an operator; connections leave (reset / close frame / half-close). Authenticated operators start work that is answered later by client id: a payload build relayed to the service (the service's AgentBuild replies - progress message / payload - are sent by the ClientID it was given) and a BOF task with python-module callback (the agent's RAN_OK / COULD_NOT_RUN callback goes through PythonModuleCallback(ClientID)); each answer is released at a generated later point: while the asker is still connected, after it left, after it left and other connections came (planned histories aim at these points; 1 in 10 histories is an unplanned step sequence), interleaved with live console broadcasts. Claimed sender: every such request, and 0-2 requests per phase that HEAD answers at once with a reply directed to ONE client (Listener Add that must fail: existing name as Smb / External listener, Http with the proxy enabled and one of the five proxy fields missing; the same Listener Edit), carries a generated Head.User claim (never checked after login): the sender's own name, the empty string, the name of another connected operator, of a configured operator who is not connected, an unknown name, the own name in another letter case. Oracle: a connection that has not sent a message has received 0 bytes at every release, broadcast and at its departure; a refused one exactly one InitConnection/Error; an authenticated one receives a targeted answer iff it is the session that asked for it and is still connected (exactly once; a later session of the same operator may or may not), and every live broadcast issued while it was authenticated; whatever an authenticated operator sends and claims, an unauthenticated connection receives nothing; a directed reply must reach the sender when it named itself, may reach the sender or the AUTHENTICATED operator whose name was claimed otherwise (not judged by C06, counted: observed directed-reply-reached-...), and no third session; frame lists are complete (one-shot chat echo read before judging; service-side barrier after every service reply). Non-trivial: an answer is released after its asker left, or while an unauthenticated connection exists, or a request claims another sender than its own, or a directed reply is produced while an unauthenticated connection exists; distinct = (set of release points, set of kinds, unauthenticated present at a release, who holds an asker's address at a release, claim class (own / empty / other name) of deferred requests and of directed-reply requests, the latter with/without an unauthenticated connection present). SCALE (shape:scale, about 1 history in 85): ONE count of the history is drawn from the threshold-adjacent pool {63,64,65, 127,128,129, 255,256,257, 511,512,513, 999,1000,1001, 1023,1024,1025, ...} and that many connections / events are produced by the same real calls as in the small histories (every connection a real loopback websocket handled by handleRequest), in two parts (half+half, or all but one / two and the rest), with the ordinary steps (live broadcast, operator login, wrong password, silent connection from a reused / other-ip address, departure of an operator or of any connection, ask, release, directed-reply request with a claimed sender) before, between and after the parts, the first step after the bulk being one that is fanned out to operators: scale:open-silent = silent connections held open at once (pool cut at 1025 in the quick tier, 2049 thorough, and at what RLIMIT_NOFILE affords: two descriptors per connection, soft limit raised to the hard one in TestMain), scale:open-authenticated = operators logged in at once, each a different operator of an enlarged profile (cut at 129 quick / 257 thorough: every login is replayed all retained events, quadratic), scale:cycles-silent / cycles-refused / cycles-login = connect-disconnect cycles, i.e. client ids handed out: silent connections that leave, wrong-password logins that are refused (each exactly one error frame, closed, record removed), one operator logging in and leaving again and again (1025 / 1025 / 129 quick; 4097 / 4097 / 257 thorough), scale:broadcasts = live console broadcasts (4097 / 8193), scale:targeted-answers = progress messages of one payload build released by client id (1025 / 4097), scale:directed-replies = failing Listener Add/Edit requests (257 / 1025); in a third of the histories whose large count is not a number of open connections a second, moderate group of 63-129 silent connections is held open as well; afterwards many of the bulk connections may leave at once so that a threshold-adjacent number (0, 63-65, 127-129) stays, and the history goes on. The oracle is the same at every step (server-side byte counter of every silent connection = 0 after every broadcast, answer, reply and at its departure; complete frame lists of operators), evaluated in the same places; only the goroutine-dump wait for departed handlers is made once per bulk instead of once per connection. Labels scale:<count>:<bucket> (buckets 64-129, 255-513, 999-1025, 2047-4097, 8191+; client-table = silent + authenticated) and at-scale:<step>|table:<bucket> (an ordinary step made while the client table holds that many records); scale histories are non-trivial when such a step happens with an unauthenticated connection present or a count other than the number of operators is large, and add (count, bucket) and (step, bucket) to the fingerprint",
+		Gen:  genC, Check: checkC, Classify: classifyC,
 		Assumptions: []string{
 			"one session per operator at a time: a generated login for an operator who is online stays a silent connection (the teamserver resolves the asking session by user name)",
 			"if the kernel refuses to bind/connect from a requested local address after 20 tries the connection is made from a fresh address and counted (observed: address-refused-by-kernel); that is never a violation",
 			"the Demon-type payload build (builder console messages) is not driven: every build attempt leaves a directory under the hard-coded /tmp and runs external compilers; the same ClientID resolution is exercised through the service-type build and the BOF callback",
 			"a targeted answer reaching a later session of the SAME operator is not judged (the statement only speaks about unauthenticated connections; HEAD never does it)",
+			"scale histories: the client table must hold one record per open connection (a new connection that takes over the id of another one - six random hex digits, about 3 % of the histories with 1025 open connections before 4755c52 - shows as fewer records); checked before a newly made connection says anything",
+			"scale histories: a bulk whose size exceeds what the descriptor limit affords is cut (observed scale-cut-by-descriptor-limit); the generator already cuts its pool by the limit of the generating process",
 		},
 	})
 }
